@@ -35,7 +35,8 @@ class O2JToSM(ConvertBase):
             )
             sm.bpms = cls.cast(o2j.bpms, SMBpmList, dict(offset="offset", bpm="bpm"))
             sm.description = f"Level {o2js.level_name(o2j)}"
-            sm.chart_type = SMMapChartTypes.get_type(o2j.stack().column.max() + 1)
+            # O2Jam charts have 7 keys, whichever columns are used
+            sm.chart_type = SMMapChartTypes.KB7_SINGLE
 
             sms.maps = [sm]
 
@@ -70,6 +71,7 @@ class O2JToSM(ConvertBase):
             )
             sm.bpms = cls.cast(o2j.bpms, SMBpmList, dict(offset="offset", bpm="bpm"))
             sm.description = f"Level {o2js.level_name(o2j)}"
+            sm.chart_type = SMMapChartTypes.KB7_SINGLE
 
             sms.maps.append(sm)
 
